@@ -148,8 +148,14 @@ func (w *pworld) call() error {
 			return errInjected
 		case "eoferr":
 			return errEOF // a user callback / Open returning io.EOF itself
+		case "errctx":
+			// an upstream failure whose chain also holds context.Canceled (a stage reporting its own cancelled sub-context)
+			// while the materialisation's context is alive: a failure like any other
+			return errInjectedCtx
 		case "perr":
 			panic(errInjected)
+		case "peof":
+			panic(errEOF) // a panic whose value is io.EOF itself: recovered, it must not be taken for the end of the stream
 		case "pval":
 			panic("injected-panic-value")
 		case "cancel":
@@ -771,6 +777,8 @@ type probeReadCloser struct {
 }
 
 func (p *probeReadCloser) Close() error { p.w.ev(p.r, 'C'); return nil }
+
+var errInjectedCtx = fmt.Errorf("fetch page: %w (%w)", errInjected, context.Canceled)
 
 func classifyErr(err error) string {
 	switch {
